@@ -4305,6 +4305,10 @@ impl BytecodeVM {
                         prototype.borrow_mut().prototype = Some(super_proto.cheap_clone());
                     }
 
+                    // The derived constructor inherits from the base constructor, which is
+                    // how static methods, accessors and fields are inherited
+                    ctor_obj.borrow_mut().prototype = Some(super_ctor.cheap_clone());
+
                     // Store __super__ on constructor for super() calls
                     ctor_obj.borrow_mut().set_property(
                         PropertyKey::String(interp.intern("__super__")),
@@ -4709,8 +4713,8 @@ impl BytecodeVM {
             Op::SuperGet { dst, key } => {
                 let key_val = self.get_reg(key);
                 let super_target = self.get_super_target(interp)?;
-                let Guarded { value, .. } =
-                    self.get_property_value(interp, &super_target, key_val)?;
+                let key_val = key_val.clone();
+                let Guarded { value, .. } = self.get_super_property(interp, &super_target, &key_val)?;
                 self.set_reg(dst, value);
                 Ok(OpResult::Continue)
             }
@@ -4721,7 +4725,7 @@ impl BytecodeVM {
                     .ok_or_else(|| JsError::internal_error("Invalid super property key"))?;
                 let super_target = self.get_super_target(interp)?;
                 let Guarded { value, .. } =
-                    self.get_property_value(interp, &super_target, &JsValue::String(key_str))?;
+                    self.get_super_property(interp, &super_target, &JsValue::String(key_str))?;
                 self.set_reg(dst, value);
                 Ok(OpResult::Continue)
             }
@@ -5451,6 +5455,61 @@ impl BytecodeVM {
                                 }
                             }
                         }
+                    } else if let Some(JsValue::String(text)) = iter_obj
+                        .borrow()
+                        .get_property(&PropertyKey::String(interp.intern("__string__")))
+                    {
+                        // Internal string iterator: the remaining characters
+                        let index = match iter_obj
+                            .borrow()
+                            .get_property(&PropertyKey::String(interp.intern("__index__")))
+                        {
+                            Some(JsValue::Number(n)) => n as usize,
+                            _ => start_index as usize,
+                        };
+                        for ch in text.as_str().chars().skip(index) {
+                            elements.push(JsValue::String(JsString::from(ch.to_string())));
+                        }
+                    } else {
+                        // Any other iterator: drain it through its next() method
+                        let iter_obj = iter_obj.cheap_clone();
+                        let next_key = PropertyKey::String(interp.intern("next"));
+                        let done_key = PropertyKey::String(interp.intern("done"));
+                        let value_key = PropertyKey::String(interp.intern("value"));
+                        let next_method = iter_obj.borrow().get_property(&next_key);
+                        if let Some(next_fn) = next_method.filter(|m| m.is_callable()) {
+                            loop {
+                                let Guarded {
+                                    value: step,
+                                    guard: _step_guard,
+                                } = interp.call_function(
+                                    next_fn.clone(),
+                                    JsValue::Object(iter_obj.cheap_clone()),
+                                    &[],
+                                )?;
+                                let JsValue::Object(step_obj) = &step else {
+                                    return Err(JsError::type_error(
+                                        "Iterator result is not an object",
+                                    ));
+                                };
+                                let done = step_obj
+                                    .borrow()
+                                    .get_property(&done_key)
+                                    .map(|d| d.to_boolean())
+                                    .unwrap_or(false);
+                                if done {
+                                    break;
+                                }
+                                let item = step_obj
+                                    .borrow()
+                                    .get_property(&value_key)
+                                    .unwrap_or(JsValue::Undefined);
+                                if let JsValue::Object(o) = &item {
+                                    self.register_guard.guard(o.cheap_clone());
+                                }
+                                elements.push(item);
+                            }
+                        }
                     }
                 }
 
@@ -5524,31 +5583,16 @@ impl BytecodeVM {
             // ═══════════════════════════════════════════════════════════════════════════
             Op::TemplateConcat { dst, start, count } => {
                 let mut result = String::new();
-                let to_string_key = PropertyKey::String(interp.intern("toString"));
                 for i in 0..count {
                     let val = self.get_reg(start + i);
-                    // For objects, call toString method; for primitives, use to_js_string
-                    let str_val = if let JsValue::Object(obj) = &val {
-                        // Check if object has a custom toString method
-                        if let Some(JsValue::Object(func_obj)) =
-                            obj.borrow().get_property(&to_string_key)
-                        {
-                            if func_obj.borrow().is_callable() {
-                                // Call toString()
-                                match interp.call_function(
-                                    JsValue::Object(func_obj.clone()),
-                                    val.clone(),
-                                    &[],
-                                ) {
-                                    Ok(Guarded { value, guard: _ }) => interp.to_js_string(&value),
-                                    Err(_) => interp.to_js_string(val),
-                                }
-                            } else {
-                                interp.to_js_string(val)
-                            }
-                        } else {
-                            interp.to_js_string(val)
-                        }
+                    // ToString: objects go through ToPrimitive with hint "string"
+                    let str_val = if matches!(val, JsValue::Symbol(_)) {
+                        return Err(JsError::type_error(
+                            "Cannot convert a Symbol value to a string",
+                        ));
+                    } else if matches!(val, JsValue::Object(_)) {
+                        let val = val.clone();
+                        interp.coerce_to_string(&val)?
                     } else {
                         interp.to_js_string(val)
                     };
@@ -6038,6 +6082,35 @@ impl BytecodeVM {
                 Ok(OpResult::Continue)
             }
         }
+    }
+
+    /// `super.key`: the property is looked up on the super target, but a getter runs
+    /// with the current `this` as receiver
+    fn get_super_property(
+        &self,
+        interp: &mut Interpreter,
+        super_target: &JsValue,
+        key: &JsValue,
+    ) -> Result<Guarded, JsError> {
+        if let JsValue::Object(target) = super_target {
+            let prop_key = interp.property_key_from_value(key);
+            let getter = match target.borrow().get_property_descriptor(&prop_key) {
+                Some((prop, _)) if prop.is_accessor() => Some(prop.getter().cloned()),
+                _ => None,
+            };
+            match getter {
+                Some(Some(getter)) => {
+                    return interp.call_function(
+                        JsValue::Object(getter),
+                        self.this_value.clone(),
+                        &[],
+                    );
+                }
+                Some(None) => return Ok(Guarded::unguarded(JsValue::Undefined)),
+                None => {}
+            }
+        }
+        self.get_property_value(interp, super_target, key)
     }
 
     /// Get a property value from an object, invoking getters if present.
